@@ -22,15 +22,16 @@ STDLIB_CALLS = {
     "itertools.permutations": lambda *a: list(_it.permutations(*a)),
     "itertools.takewhile": lambda f, it: list(_it.takewhile(f, it)), "itertools.dropwhile": lambda f, it: list(_it.dropwhile(f, it)),
     "itertools.chain": lambda *its: list(_it.chain(*its)), "itertools.zip_longest": lambda *a, **k: list(_it.zip_longest(*a, **k)),
-    "itertools.product": lambda *a, **k: list(_it.product(*a, **k)),
+    "itertools.product": lambda *a, **k: list(_it.product(*a, **k)), "itertools.count": _it.count, "itertools.repeat": _it.repeat,
+    "itertools.combinations": lambda *a: list(_it.combinations(*a)), "itertools.accumulate": lambda *a, **k: list(_it.accumulate(*a, **k)),
     "copy.deepcopy": _copy.deepcopy, "copy.copy": _copy.copy,
-    "functools.reduce": _ft.reduce,
+    "functools.reduce": _ft.reduce, "traceback.print_exc": (lambda *a, **k: None), "traceback.print_tb": (lambda *a, **k: None),
     **{f"operator.{n}": getattr(_op, n) for n in ("iconcat", "concat", "add", "iadd", "sub", "mul", "and_", "or_", "not_", "eq", "ne", "lt", "le", "gt", "ge",
                                                    "contains", "getitem", "truth", "is_", "is_not", "neg")},
     "re.fullmatch": _re.fullmatch, "re.match": _re.match, "re.search": _re.search, "re.sub": _re.sub, "re.escape": _re.escape, "re.findall": _re.findall,
 }
 STDLIB_MODELS = {"itertools": {MODKEY: "itertools", "chain": {MODKEY: "itertools.chain"}}, "re": {MODKEY: "re"}, "copy": {MODKEY: "copy"},
-                 "functools": {MODKEY: "functools"},
+                 "functools": {MODKEY: "functools"}, "traceback": {MODKEY: "traceback"}, "sys": {MODKEY: "sys", "stderr": None, "stdout": None},
                  # operator's functions are also passed as values (functools.reduce(operator.iconcat, ...)): the real, pure builtins
                  "operator": {MODKEY: "operator", **{n[len("operator."):]: f for n, f in STDLIB_CALLS.items() if n.startswith("operator.")}}}
 
